@@ -845,6 +845,9 @@ impl Prop for C18 {
     fn id(&self) -> &'static str {
         "C18"
     }
+    fn irreproducibility_is_violation(&self) -> bool {
+        true
+    }
     fn rule(&self, tier: Tier) -> String {
         format!("Part 1 (decides): the only concurrent seam, LocomotiveSimulationVec::walk(true) = rayon par_iter_mut().try_for_each(walk), is explored through rayon's contract (each element visited at most once; after an error no new element starts; started ones finish): one scheduler thread per element sharing one flag, element bodies = the REAL LocomotiveSimulation::walk. shuttle check_dfs (unbounded DFS, every interleaving) for EVERY batch (quick tier: every multiset) of N <= 3 elements over {} element kinds (ok/failing at step 1/failing later x conv/BEL); for N = 4 (every batch over 4 kinds{}) and three N = 5 batches the same contract is enumerated explicitly over its 2N events ((2N)!/2^N interleavings); the two engines must produce the same outcome set for every N <= 3 batch. states = schedules. Binding: the real walk(true) runs inside rayon pools of 1..16 threads (four mixed batches and 14 seven-element batches with exactly one failing element at every position, where the element the error names does not depend on timing) ({} repetitions each) and every observed outcome must be a member of the explored outcome set; walk(false) must equal the element-wise serial reference. Part 2 (decides): for Link.speed_sets and LocationMap with 3 keys and TrainConfig.n_cars_by_type with 4 keys (car masses chosen so that f64 summation is order-sensitive), map instances are created until all 3! / 4! iteration orders are realised and the consuming pipeline must give identical outputs for each. Part 4 (decides for the pool sizes stated; work-stealing order inside one pool size is repeated, not controlled): a ConsistSimulation over seven conventional units whose fuel powers sum order-sensitively (self-checked), a set-speed train run, an estimated-time construction and a three-train dispatch run inside rayon pools of 1..16 threads ({} repetitions each) and in the default pool; every serialized output must equal the one from a pool of 1 thread byte for byte -- today none of them contains parallel code, the part exists so that parallelism introduced into them is measured against the serial result. Part 5 (decides): EVERY ordered pair (A, B) from a catalogue of 7 different simulations / constructions (four set-speed runs on routes whose link extents overlap differently, a speed-limited run, the consist run, an est-time construction): B run right after A on one thread must be byte-identical to B on a fresh thread -- state surviving between runs (statics, thread-locals, caches keyed too coarsely) shows as a difference. Part 3 (sampled tripwire, not a verdict): {} scenarios of est-time construction, dispatch and speed-limited simulation run twice in fresh threads and compared byte for byte. distinct_nontrivial = distinct (part, batch size, number of outcomes / orders) signatures.", kinds_alphabet(tier).len(), if tier.is_thorough() { "" } else { ", every 8th in the quick tier" }, if tier.is_thorough() { 20 } else { 6 }, if tier.is_thorough() { 12 } else { 3 }, if tier.is_thorough() { 72 } else { 18 })
     }
